@@ -148,6 +148,7 @@ func (e *Eng) step(fr *Frame, st *State, instr ssa.Instruction) {
 		for _, b := range in.Bindings {
 			fv.Bind = append(fv.Bind, e.val(fr, b))
 		}
+		e.loopCaptureCheck(fr, st, in)
 		if fr.pure {
 			fv.Ref = null
 		} else {
@@ -1192,4 +1193,68 @@ func refsOf(v Val) []T {
 		return out
 	}
 	return nil
+}
+
+
+// loopCaptureCheck: a closure made inside a loop that outlives the iteration (started with `go`, deferred,
+// stored or passed on) must not capture by reference a variable that the loop assigns again: with the
+// per-loop variables of this module's Go version (go.mod: go 1.14) every such closure would observe the
+// values of later iterations.  Zero-annotation obligation `capture.loopvar` of every function under contract.
+func (e *Eng) loopCaptureCheck(fr *Frame, st *State, mc *ssa.MakeClosure) {
+	if fr.pure || fr.fn != e.fn || e.fc == nil || e.collect {
+		return
+	}
+	blk := mc.Block()
+	var inner *loopInfo
+	for _, li := range e.loopList {
+		if li.body[blk] || li.header == blk {
+			if inner == nil || len(li.body) < len(inner.body) {
+				inner = li
+			}
+		}
+	}
+	if inner == nil {
+		return
+	}
+	// called on the spot in the same block (func(){...}()) and nowhere else: the iteration still owns the variable
+	immediate := true
+	if refs := mc.Referrers(); refs != nil {
+		for _, r := range *refs {
+			switch x := r.(type) {
+			case *ssa.Call:
+				if x.Call.Value != ssa.Value(mc) {
+					immediate = false
+				}
+			case *ssa.DebugRef:
+			default:
+				immediate = false
+			}
+		}
+	}
+	if immediate {
+		return
+	}
+	fn := mc.Fn.(*ssa.Function)
+	for i, b := range mc.Bindings {
+		a, ok := b.(*ssa.Alloc)
+		if !ok || inner.body[a.Block()] || a.Block() == inner.header {
+			continue // allocated per iteration
+		}
+		storedInLoopBody := false
+		if refs := a.Referrers(); refs != nil {
+			for _, r := range *refs {
+				if s, ok := r.(*ssa.Store); ok && s.Addr == ssa.Value(a) && (inner.body[s.Block()] || s.Block() == inner.header) {
+					storedInLoopBody = true
+				}
+			}
+		}
+		if !storedInLoopBody {
+			continue
+		}
+		name := a.Comment
+		if i < len(fn.FreeVars) {
+			name = fn.FreeVars[i].Name()
+		}
+		e.oblige(st, "capture.loopvar", name, e.allProps(), "false", mc, "the closure outlives the iteration but captures by reference the variable "+name+", which the loop assigns again (later iterations overwrite what the closure sees)")
+	}
 }
